@@ -69,6 +69,11 @@ extra = {"C08": "yes: downloads after an abandoned earlier transfer on the same 
          "R13C14": "caught at once, likewise: tokens that differ only in length or leading zero bytes ([] / [0] / [0,0] / [0;8], [1] / [0,1]); MC_Observe's two tokens are [] and [0]",
          "R13C17": "caught at once, likewise: long link-format inputs (300 000 white-space characters before a link, 200 000-character targets / values / keys, 50 000 attributes, 30 000 links) evaluated natively; the harness dying of a stack overflow is reported as a violation",
          "R13C20": "yes: freshness options (Max-Age 0 / 1) on the application's replies in the retention and mixed drivers",
+         "R14C01": "caught at once, by a measure taken while the change was being written: large messages through the unlimited entry point (hundreds of values / numbers, values of 65535 / 65536 / 65549 / 65804 bytes, 70 000-byte payload)",
+         "R14C09": "yes: options a client may put on the blocks of an upload - a Size1 estimate (exact, too small, too large, 70 000; on block 0 or on every block), If-Match, Content-Format",
+         "R14C12": "yes: a transfer whose steps are separated by 20..300 plain requests on other keys of the same endpoint, compared with its solo run; live state that vanishes while other keys are in use is reported under C12 as well as C20",
+         "R14C18": "yes: the newline option set again (to the same value) between links under every fault position",
+         "R14C19": "caught at once, by a measure taken while the change was being written: paths of 300 segments and segments of 256 / 400 bytes in set_path",
          "R4C12": "yes: the two entry points of an exchange as separate steps with equal message ids on different endpoints (model MODE split, deferred responses in the mixed driver); a disturbed other key is reported under C12 in every branch",
          "C20": "yes: expiry under block-wise traffic on other keys (model `Other` now block-wise; driver scenario `expiry-traffic`)"}
 for d in sorted(glob.glob(os.path.join(ROOT, "seeded", "*", "meta.json"))):
